@@ -56,6 +56,12 @@ CHECKS = {
                     'mechanisms (cookie hash uninterpreted) and real-client-vs-real-bus handshakes.',
             'ref': 'DESIGN.md 2/C06', 'note': NOTE + ' Mechanism I/O (pwd, keyring files, urandom, SHA-1) is stubbed as listed in the evidence.',
             'technique': SYM + '; inductive one-step check from an arbitrary state against a reference state machine'},
+    'C07': {'text': 'One real ClientAuthenticator.handleAuthMessage call from an arbitrary state (mechanism, transport kind, '
+                    'negotiation pending) over 17 server line shapes is checked against the clauses of the property (BEGIN only '
+                    'after OK / finished negotiation, preference order, each mechanism once, failure on exhaustion or junk, some '
+                    'reaction to every line); bounded runs from connectionMade through dataReceived; full handshakes against a '
+                    'reference server for every subset of accepted mechanisms.',
+            'ref': 'DESIGN.md 2/C07', 'note': NOTE, 'technique': SYM + '; inductive one-step check from an arbitrary state'},
 }
 _TODO = 'check not built yet in this revision (planned, see DESIGN.md section 2)'
 NOT_APPLICABLE = {('C%02d' % i): _TODO for i in range(1, 21)}
